@@ -33,7 +33,8 @@ def files():
     req.field.append(G.F("sizes", 18, T.TYPE_INT32, label=G.REPEATED, **R))
     req.oneof_decl.add(name="source")
     req.field.append(G.F("by_id", 11, T.TYPE_STRING, oneof_index=0))
-    req.field.append(G.F("by_inner", 12, T.TYPE_MESSAGE, type_name=P + ".Inner", oneof_index=0))
+    # (the second member of the oneof is REQUIRED: still exactly one member of the oneof is populated)
+    req.field.append(G.F("by_inner", 12, T.TYPE_MESSAGE, type_name=P + ".Inner", oneof_index=0, required=True))
     G.add_message(fd, "ListThingsRequest", [G.F("parent", 1, T.TYPE_STRING, **R), G.F("page_size", 2, T.TYPE_INT32), G.F("page_token", 3, T.TYPE_STRING)])
     G.add_message(fd, "ListThingsResponse", [G.F("things", 1, T.TYPE_MESSAGE, label=G.REPEATED, type_name=P + ".Thing"), G.F("next_page_token", 2, T.TYPE_STRING)])
     G.add_message(fd, "StartRequest", [G.F("name", 1, T.TYPE_STRING, **R), G.F("thing", 2, T.TYPE_MESSAGE, type_name=P + ".Thing", **R)])
@@ -71,6 +72,8 @@ def required_unset(msg, path=""):
     out = []
     for f in msg.DESCRIPTOR.fields:
         req = field_behavior_pb2.REQUIRED in list(f.GetOptions().Extensions[field_behavior_pb2.field_behavior])
+        if req and f.containing_oneof is not None and msg.WhichOneof(f.containing_oneof.name) not in (None, f.name):
+            continue          # a member of a oneof whose (one) populated member is another one
         v = getattr(msg, f.name)
         if f.label == FD.LABEL_REPEATED:
             if req and len(v) == 0:
@@ -274,6 +277,19 @@ def scenarios():
                     for o in msg.DESCRIPTOR.oneofs:
                         if not (len(o.fields) == 1 and o.name.startswith("_")) and msg.WhichOneof(o.name) is None:
                             failures.append(dict(label, what="no member of the oneof is populated", oneof=o.name))
+                # exactly one member of each oneof is written by the sample (the wire shows only the last one set)
+                if rpc == "GetThing":
+                    import ast as _ast
+                    written = set()
+                    for node in _ast.walk(_ast.parse(text)):
+                        if isinstance(node, _ast.keyword) and node.arg in ("by_id", "by_inner"):
+                            written.add(node.arg)
+                        if isinstance(node, _ast.Attribute) and node.attr in ("by_id", "by_inner") and isinstance(node.ctx, _ast.Store):
+                            written.add(node.attr)
+                        if isinstance(node, _ast.Attribute) and isinstance(node.value, _ast.Attribute) and node.value.attr in ("by_id", "by_inner") and isinstance(node.ctx, _ast.Store):
+                            written.add(node.value.attr)
+                    if len(written) != 1:
+                        failures.append(dict(label, what="the sample does not populate exactly one member of the oneof `source`", members_written=sorted(written)))
                 # metadata entry
                 s = snippets.get(tag)
                 if s is None:
